@@ -105,14 +105,14 @@ PROPS = {
     "C04": {
         "level": "exploration",
         "interpreters": PRODUCERS,
-        "rule": "S-SIG completely: (posonly{0,1,2 on 3.8+} x pos-or-kw{0,1,2} x kwonly{0,1,2} x *args{0,1} x **kw{0,1}) x {def, lambda, async def, generator, async generator, method} x 12 docstring shapes (none, plain, non-first string, non-string first statement, bytes, f-string, lone surrogate, string first used as a value, stripped by optimize=2, empty string, empty string also used as a value, whitespace) x parameter-is-a-cell{no,yes}, plus comprehensions/class bodies/modules, plus every function-like code object of the program grammar (Pa, Pc, repo sources; thorough: all strata and the stdlib corpus). Oracle: header reading of CPython's local layout, inspect.signature of a function built from the code, and CPython's own argument binding of a stub with the same header (positional/keyword/negative calls). distinct_nontrivial = distinct (signature, flags, first-constant type) triples of function-like code objects.",
+        "rule": "S-SIG completely: (posonly{0,1,2 on 3.8+} x pos-or-kw{0,1,2} x kwonly{0,1,2} x *args{0,1} x **kw{0,1}) x {def, lambda, async def, generator, async generator, method} x 12 docstring shapes (none, plain, non-first string, non-string first statement, bytes, f-string, lone surrogate, string first used as a value, stripped by optimize=2, empty string, empty string also used as a value, whitespace) x parameter-is-a-cell{no,yes}, plus comprehensions/class bodies/modules, each S-SIG function also renamed (co_name '<lambda>', '<listcomp>', '<module>', ''), plus every function-like code object of the program grammar (Pa, Pc, repo sources; thorough: all strata and the stdlib corpus). Oracle: header reading of CPython's local layout, inspect.signature of a function built from the code, and CPython's own argument binding of a stub with the same header (positional/keyword/negative calls). distinct_nontrivial = distinct (signature, flags, first-constant type) triples of function-like code objects.",
         "assumptions": TRUST + ["inspect's 'implicitN' presentation of comprehension parameters is undone (see DESIGN 9.2)"],
         "required_reach": {"quick": ["param:POSITIONAL_ONLY@3.8,3.9,3.10", "param:POSITIONAL_OR_KEYWORD", "param:VAR_POSITIONAL", "param:KEYWORD_ONLY", "param:VAR_KEYWORD", "param:star+kwonly", "has-doc", "kind:GENERATOR", "kind:COROUTINE", "kind:ASYNC_GENERATOR", "kind:None", "nonfn", "sig-ok", "nonfn-ok"]},
     },
     "C11": {
         "level": "exploration",
         "interpreters": PRODUCERS,
-        "rule": "all 2^18 subsets of the flag bits CPython defines (dis.COMPILER_FLAG_NAMES + __future__ compiler flags, read from CPython, not from the library) converted to names and back, in chunks of 64 words each run in a freshly forked child (enum's pseudo-member cache); every word with exactly one of the 14 unknown bits x subsets of known flags of size <=2 (thorough: x all 2^18); header alterations of 16 base code objects: co_flags XOR every mask of Hamming weight <=2 over 32 bits (529 each), and every (argcount, posonlyargcount, kwonlyargcount) triple in 0..min(len(varnames),4) x {0, each single flag bit} that types.CodeType accepts; and every name-carrying header entry (each variable/cell/free/global name, co_name, co_filename) replaced in turn by '', a non-identifier and a lone surrogate. ; negative words (bit 31 as a negative int, -1, -2); for base objects that are nested, the fields code.__eq__ ignores (co_stacksize, co_filename, line table) of the nested object altered and the parent converted right after the unaltered parent. Oracle: from_code raises or to_code() is strictly identical to the altered object. distinct_nontrivial = distinct flag words + distinct (base, alteration) pairs built.",
+        "rule": "all 2^18 subsets of the flag bits CPython defines (dis.COMPILER_FLAG_NAMES + __future__ compiler flags, read from CPython, not from the library) converted to names and back, in chunks of 64 words each run in a freshly forked child (enum's pseudo-member cache); every word with exactly one of the 14 unknown bits x subsets of known flags of size <=2 (thorough: x all 2^18); header alterations of 16 base code objects: co_flags XOR every mask of Hamming weight <=2 over 32 bits (529 each), and every (argcount, posonlyargcount, kwonlyargcount) triple in 0..min(len(varnames),4) x {0, each single flag bit, both function flags cleared} that types.CodeType accepts; and every name-carrying header entry (each variable/cell/free/global name, co_name, co_filename) replaced in turn by '', a non-identifier and a lone surrogate. ; negative words (bit 31 as a negative int, -1, -2); for base objects that are nested, the fields code.__eq__ ignores (co_stacksize, co_filename, line table) of the nested object altered and the parent converted right after the unaltered parent. Oracle: from_code raises or to_code() is strictly identical to the altered object. distinct_nontrivial = distinct flag words + distinct (base, alteration) pairs built.",
         "assumptions": TRUST,
         "required_reach": {"quick": ["word-ok", "unknown-bit-raises", "reproduced", "from_code-raises"]},
         "shards": {"quick": 16, "thorough": 16},
@@ -127,9 +127,10 @@ PROPS = {
     "C08": {
         "level": "exploration",
         "interpreters": ALL,
-        "rule": "all ordered pairs of the constant universe S-CONST (50 atoms incl. signed zeros, NaNs with either sign and a payload, infinities, 2^53 neighbours, huge ints, complex with signed zero/NaN parts, lone surrogates, tag-lookalike strings, bytes, Ellipsis; closed under 1-tuples, singleton frozensets, pairs over a 12-atom core, one more nesting level; each value built twice independently) compared as Constant, as one-instruction CodeData and against the JSON-loaded copy: == must coincide with CPython's constant partition (_PyCode_ConstantKey, NaNs merged; cross-checked against the harness's strict key on every pair), be symmetric, consistent with !=, and imply equal hashes and mutual set/dict membership; equal values encode to identical code. All ordered pairs of CodeData obtained from a spread of 300 (thorough 600) grammar programs by 7 routes (decode, decode of an independent compile, normalize, JSON load of both, field-by-field reconstruction, decode of encode) plus about 16 single-field deviations of the decoded value (each must be unequal to everything else). setattr/delattr of every field of every dataclass. distinct_nontrivial = distinct equal pairs of non-identical objects + (type, field) pairs.",
+        "rule": "all ordered pairs of the constant universe S-CONST (54 atoms incl. signed zeros, NaNs with either sign and a payload, infinities, 2^53 neighbours, huge ints, complex with signed zero/NaN parts, lone surrogates, tag-lookalike strings, bytes, Ellipsis; closed under 1-tuples, singleton frozensets, pairs over a 12-atom core, one more nesting level; each value built twice independently) compared as Constant, as one-instruction CodeData and against the JSON-loaded copy: == must coincide with CPython's constant partition (_PyCode_ConstantKey, NaNs merged; cross-checked against the harness's strict key on every pair), be symmetric, consistent with !=, and imply equal hashes and mutual set/dict membership; equal values encode to identical code. All ordered pairs of CodeData obtained from a spread of 300 (thorough 600) grammar programs by 7 routes (decode, decode of an independent compile, normalize, JSON load of both, field-by-field reconstruction, decode of encode) plus about 16 single-field deviations of the decoded value (each must be unequal to everything else). setattr/delattr of every field of every dataclass. Second stage, in processes with another string-hash seed: the decoded, normalized and JSON-loaded value of every program, pickled by the first stage after being hashed, must equal the freshly computed value, hash equal and be found in a set. distinct_nontrivial = distinct equal pairs of non-identical objects + (type, field) pairs.",
         "assumptions": TRUST + ["on 3.11-3.13 only the hand-built and JSON routes exist (from_code cannot run there)"],
-        "required_reach": {"quick": ["equal-pair-ok", "unequal-pair-ok", "frozen-ok", "route-pair-equal"]},
+        "stages": 2,
+        "required_reach": {"quick": ["equal-pair-ok", "unequal-pair-ok", "frozen-ok", "route-pair-equal", "unpickled-equal-and-hash-equal"]},
     },
     "C07": {
         "level": "exploration",
@@ -150,9 +151,9 @@ PROPS = {
     "C03": {
         "level": "exploration",
         "interpreters": PRODUCERS,
-        "rule": "hand-built CodeData, complete products: block graphs (2-4 blocks x NOP paddings {0,1,b-1,b} (thorough {0,1,b-2..b+1}) around the 1->2 unit jump boundary b of the running interpreter x one jump from {JUMP_ABSOLUTE, POP_JUMP_IF_FALSE -> any block; JUMP_FORWARD, FOR_ITER -> later block}; 3 blocks x all pairs of jumps from different blocks; thorough: paddings around the 2->3 unit boundary); operand tables of 0,1,2,255,256,257,65537 (thorough 65535..65537) names/constants/locals/cells with and without repeated uses, free-variable operands after 0..257 cell variables (referenced by instructions, or listed only as additional args) followed by a jump; all assignments of 8 line values (+None on 3.10) to 3 line slots x first line {1,3,200} x short/long middle run; all ordered pairs of S-CONST loaded by two LOAD_CONST; all signature shapes x function type x docstring {None, plain, lone surrogate} x body x free variable; override consistency: 3 operands over 2 values x overrides {None,0,1,2,5}^3 x 4 table kinds; single edits (delete each instruction, clear additional args, clear each override) of every decoded object of a spread of 1500 (thorough 15000) grammar programs. Oracle: to_code terminates; CPython's reading of the result (R-DIS, PyCode_Addr2Line, header, inspect) equals the data instruction by instruction; decoding again equals the input up to normalization; inconsistent overrides raise or stay in-table with the given values.",
+        "rule": "hand-built CodeData, complete products: block graphs (2-4 blocks x NOP paddings {0,1,b-1,b} (thorough {0,1,b-2..b+1}) around the 1->2 unit jump boundary b of the running interpreter x one jump from {JUMP_ABSOLUTE, POP_JUMP_IF_FALSE -> any block; JUMP_FORWARD, FOR_ITER -> later block}; 3 blocks x all pairs of jumps from different blocks; thorough: paddings around the 2->3 unit boundary); operand tables of 0,1,2,255,256,257,65537 (thorough 65535..65537) names/constants/locals/cells with and without repeated uses, free-variable operands after 0..257 cell variables (referenced by instructions, or listed only as additional args) followed by a jump; all assignments of 8 line values (+None on 3.10) to 3 line slots x first line {1,3,200} x short/long middle run; all ordered pairs of S-CONST loaded by two LOAD_CONST; all ordered pairs of 11 hand-built nested functions `lambda: v` (v with colliding hashes or == across types) loaded as two code constants; all signature shapes x function type x docstring {None, plain, lone surrogate} x body x free variable; override consistency: 3 operands over 2 values x overrides {None,0,1,2,5}^3 x 4 table kinds; single edits (delete each instruction, clear additional args, clear each override) of every decoded object of a spread of 1500 (thorough 15000) grammar programs. Oracle: to_code terminates; CPython's reading of the result (R-DIS, PyCode_Addr2Line, header, inspect) equals the data instruction by instruction; decoding again equals the input up to normalization; inconsistent overrides raise or stay in-table with the given values.",
         "assumptions": TRUST + ["on <=3.9 line_number=None is outside the alphabet (lnotab cannot say 'no line'; to_code refuses it)"],
-        "required_reach": {"quick": ["jump-units:1", "jump-units:2", "operand-units:2", "operand-units:3", "encodes-ok:G1", "encodes-ok:G2", "encodes-ok:T", "encodes-ok:LN", "encodes-ok:SG", "encodes-ok:ED", "inconsistent-overrides-refused", "overrides-accepted-consistent", "const-pair-ok:same", "const-pair-ok:distinct"], "thorough": ["jump-units:3"]},
+        "required_reach": {"quick": ["jump-units:1", "jump-units:2", "operand-units:2", "operand-units:3", "encodes-ok:G1", "encodes-ok:G2", "encodes-ok:T", "encodes-ok:LN", "encodes-ok:SG", "encodes-ok:ED", "encodes-ok:NP", "inconsistent-overrides-refused", "overrides-accepted-consistent", "const-pair-ok:same", "const-pair-ok:distinct"], "thorough": ["jump-units:3"]},
     },
     "C06": {
         "level": "model_checking",
@@ -164,17 +165,17 @@ PROPS = {
     "C12": {
         "level": "model_checking",
         "interpreters": PRODUCERS,
-        "rule": "for every code object of a spread of 600 (thorough 2400) grammar programs: a store {code object, its CodeData, the normalized CodeData, their two JSON documents}; every sequence of <=2 (thorough <=3) calls among the 9 concrete calls (90 / 819 sequences per code object, run back to back on one shared store) {from_code(c), to_code(d|n), normalize(d|n), to_json_data(d|n), from_json_data(jd|jn)} on those shared objects; after every call the whole store is compared with its initial strict snapshot (documents incl. nested containers and key order) and the result with the result of the same call on untouched arguments; then one mutation (pop/clear/append) at every container path of a returned document followed by to_json_data again, and of an input document after from_json_data; every code object also has a twin (equal under code.__eq__, other file name) that is decoded next to it, and at the end of each worker process (4 per interpreter, so several hundred arguments each) every object and twin is passed to from_code/normalize/to_json_data once more and must give its first results. states = distinct store snapshots; transitions = calls; traces_validated_against_impl = call sequences executed.",
+        "rule": "for every code object of a spread of 600 (thorough 2400) grammar programs: a store {code object, its CodeData, the normalized CodeData, their two JSON documents}; every sequence of <=2 (thorough <=3) calls among the 9 concrete calls (110 / 1110 sequences per code object, run back to back on one shared store) {from_code(c), to_code(d|n), normalize(d|n), to_json_data(d|n), from_json_data(jd|jn)} on those shared objects; after every call the whole store is compared with its initial strict snapshot (documents incl. nested containers and key order) and the result with the result of the same call on untouched arguments; then one mutation (pop/clear/append) at every container path of a returned document followed by to_json_data again, and of an input document after from_json_data; every code object also has a twin (equal under code.__eq__, other file name) that is decoded next to it, and at the end of each worker process (4 per interpreter, so several hundred arguments each) every object and twin is passed to from_code/normalize/to_json_data once more and must give its first results. states = distinct store snapshots; transitions = calls; traces_validated_against_impl = call sequences executed.",
         "assumptions": TRUST,
-        "required_reach": {"quick": ["function-document", "pure:90-sequences", "recheck-ok"], "thorough": ["function-document", "pure:819-sequences", "recheck-ok"]},
+        "required_reach": {"quick": ["function-document", "pure:110-sequences", "recheck-ok"], "thorough": ["function-document", "pure:1110-sequences", "recheck-ok"]},
         "shards": {"quick": 4, "thorough": 4},
     },
     "C16": {
         "level": "exploration",
         "interpreters": PRODUCERS,
-        "rule": "S-CLI completely: presence/absence of each program source {file, -c, -e, -m} (16 combinations: 4 valid, 12 usage errors) x all 2^5 subsets of {--dis, --dis-after, --source, --no-normalize, --json} x 12 programs (empty; two lines (its -e form builds the text from `linesep` inside a generator expression); nested functions/closure/class; NaN/inf/-0.0/bytes/surrogate/complex/huge-int/tuple/frozenset constants; 300 constants; non-ASCII; async/comprehension/try/while; lines >255 apart; a latin-1 coding cookie; a UTF-8 BOM; backslash-n inside literals; one-line suites) = 6144 argv vectors per interpreter, each run in-process through code_data._cli.main(); the vectors with no flag and with all flags are also run through the real entry point in a subprocess and must agree. Oracle: usage error (exit 2) iff the number of sources != 1; else exit 0, the printed CodeData line textually equals repr() of the API result (normalized unless --no-normalize), the printed JSON loads back to it, --dis/--dis-after listings equal the harness's own dis of the program (opnames and resolved operands).",
+        "rule": "S-CLI completely: presence/absence of each program source {file, -c, -e, -m} (16 combinations: 4 valid, 12 usage errors) x all 2^5 subsets of {--dis, --dis-after, --source, --no-normalize, --json} x 13 programs (empty; two lines (its -e form builds the text from `linesep` inside a generator expression); nested functions/closure/class; NaN/inf/-0.0/bytes/surrogate/complex/huge-int/tuple/frozenset constants; 300 constants; non-ASCII; async/comprehension/try/while; lines >255 apart; a latin-1 coding cookie; a UTF-8 BOM; whitespace-only lines inside triple-quoted strings; backslash-n inside literals; one-line suites) = 6656 argv vectors per interpreter (plus each program once as `/dev/stdin` fed through a pipe), each run in-process through code_data._cli.main(); the vectors with no flag and with all flags are also run through the real entry point in a subprocess and must agree. Oracle: usage error (exit 2) iff the number of sources != 1; else exit 0, the printed CodeData line textually equals repr() of the API result (normalized unless --no-normalize), the printed JSON loads back to it, --dis/--dis-after listings equal the harness's own dis of the program (opnames and resolved operands).",
         "assumptions": TRUST + ["the plain-console path is checked (rich is not installed on the producer interpreters)"],
-        "required_reach": {"quick": ["usage-error:0-sources", "usage-error:2-sources", "usage-error:4-sources", "prints-api-result:file", "prints-api-result:-c", "prints-api-result:-e", "prints-api-result:-m", "json-ok", "dis-after-ok", "subprocess-agrees"]},
+        "required_reach": {"quick": ["usage-error:0-sources", "usage-error:2-sources", "usage-error:4-sources", "prints-api-result:file", "prints-api-result:-c", "prints-api-result:-e", "prints-api-result:-m", "json-ok", "dis-after-ok", "subprocess-agrees", "pipe-source-ok"]},
     },
 }
 
@@ -264,7 +265,7 @@ MANIFEST_TEXT = {
         "technique": "exhaustive operation-history enumeration on shared objects with state snapshots after every step",
     },
     "C16": {
-        "text": "Exhaustive over the argv space S-CLI (all source-option combinations x all output-flag subsets x 12 programs) on each interpreter, in-process and (for the extreme flag sets) through the real entry point; the printed text is compared with the API's own result computed in the same process.",
+        "text": "Exhaustive over the argv space S-CLI (all source-option combinations x all output-flag subsets x 13 programs) on each interpreter, in-process and (for the extreme flag sets) through the real entry point; the printed text is compared with the API's own result computed in the same process.",
         "design_ref": "DESIGN.md section 4 C16",
         "note": BASE_NOTE,
         "technique": "exhaustive enumeration of argument vectors; printed output compared textually with the API result",
